@@ -169,8 +169,8 @@ fn firsts(rep: &Report, _tier: Tier) {
         let pd = pdu(p, 0);
         let mut bl = bs.clone();
         bl.extend(b_relative(p, l.wire_len(), 0));
-        for prior in [Prior::Fresh, Prior::Same] {
-            if prior == Prior::Same && !l.is_addr() {
+        for prior in [Prior::Fresh, Prior::Same, Prior::SameAtMax, Prior::SameBelowMax, Prior::Other] {
+            if !matches!(prior, Prior::Fresh | Prior::Other) && !l.is_addr() {
                 continue;
             }
             let base = build_prior(FastCrc, prior, l);
@@ -218,10 +218,13 @@ fn firsts(rep: &Report, _tier: Tier) {
                 let hdr = 7 + l.wire_len() + ext_wire;
                 let mut bl: Vec<usize> = vec![hdr.saturating_sub(1), hdr, hdr + 1, hdr + 2, hdr + 7, 4096, 4097, 4098, 4099, 4110, 5000, 8192, 65536, 70000];
                 bl.extend((4 + l.wire_len() + ext_wire + p).saturating_sub(2)..=4 + l.wire_len() + ext_wire + p + 1);
-                for b in uniq(bl) {
+                for (b, prior) in uniq(bl).into_iter().flat_map(|b| [(b, Prior::Fresh), (b, Prior::SameAtMax), (b, Prior::Same)]) {
+                    if prior != Prior::Fresh && !l.is_addr() {
+                        continue;
+                    }
                     let sent = SENTINELS[(p + b) % 2];
                     let mut buf = vec![sent; b];
-                    let mut enc = build_prior(FastCrc, Prior::Fresh, l);
+                    let mut enc = build_prior(FastCrc, prior, l);
                     let out = do_encap_ext(&mut enc, &pd, 0xA7, pt, l, &mut buf, c);
                     acc.states += 1;
                     acc.transitions += 1;
@@ -229,7 +232,7 @@ fn firsts(rep: &Report, _tier: Tier) {
                     acc.outcome(&format!("encap_ext:{}:{}", out.class(), regime(p, b)));
                     if let EncOut::Fragmented(..) = out {
                         acc.compared += 1;
-                        let i = FirstIn { pdu: &pd, frag_id: 0xA7, pt, label: l, b, may_substitute: false, exts: c, mand: None };
+                        let i = FirstIn { pdu: &pd, frag_id: 0xA7, pt, label: l, b, may_substitute: prior.may_substitute(l), exts: c, mand: None };
                         let (fails, _) = wf_first(&i, &out, &buf, sent, &FastCrc);
                         for (cl, txt) in fails {
                             if !matches!(cl.as_str(), "ctx-count" | "payload" | "frag-id" | "ctx-crc" | "gse-len!=written-2" | "gse-len>4095" | "unparsable") {
@@ -237,7 +240,7 @@ fn firsts(rep: &Report, _tier: Tier) {
                             }
                             let sig = format!("C11|encap_ext|{}|{}", cl, regime(p, b));
                             rep.violation(&sig, (p * 100_000 + b) as u64, || {
-                                (format!("encap_ext(pdu_len={}, label={}, buffer={}, extensions={:?}) returned {:?}: {}", p, l.short(), b, c.iter().map(|e| e.0).collect::<Vec<_>>(), out, txt), json!({"call":"encap_ext","pdu_len":p,"pdu_pattern":0,"frag_id":0xA7,"pt":pt,"label":l.short(),"buffer_len":b,"prior":"Fresh","extensions":c.iter().map(|e| json!([e.0, hex(&e.1)])).collect::<Vec<_>>(),"result":format!("{:?}",out)}))
+                                (format!("encap_ext(pdu_len={}, label={}, buffer={}, extensions={:?}) returned {:?}: {}", p, l.short(), b, c.iter().map(|e| e.0).collect::<Vec<_>>(), out, txt), json!({"call":"encap_ext","pdu_len":p,"pdu_pattern":0,"frag_id":0xA7,"pt":pt,"label":l.short(),"buffer_len":b,"prior":format!("{:?}",prior),"extensions":c.iter().map(|e| json!([e.0, hex(&e.1)])).collect::<Vec<_>>(),"result":format!("{:?}",out)}))
                             });
                         }
                     }
